@@ -48,6 +48,16 @@ CHECKS['C03'] = ('exploration',
     'POSIX branch only (shlex quoting, gcc response-file syntax); ninja de-quoting by harness/refninja.py; gcc @file parsing by a reference implementation of the documented rules.',
     'DESIGN.md 3/C03')
 
+CHECKS['C18'] = ('exploration',
+    'exhaustive enumeration of TAP line sequences + Hypothesis/seeded stream grammar + arbitrary text vs an independent TAP 12/13 reference interpreter; verdict through TestRunTAP in-process and real meson test',
+    'All line sequences up to length 3 over a 34-form alphabet and length 4 over 28 forms (thorough: length 5 over 20 forms), grammar-generated and mutated longer streams, '
+    'arbitrary text and decoded bytes are parsed by TAPParser and compared with an independent reference interpreter written from the TAP 12/13 documents: Test events '
+    '(number, name, directive-adjusted result) exactly; >=1 Error event iff one of the eight error classes the property names is present; Bail out; nothing raises; and the '
+    'whole-test verdict (TestRunTAP driven as the runner drives it, exit status 0/1/77, plus sampled real protocol:tap tests under meson test) is bad iff a subtest failed / '
+    'unexpectedly passed, an error or bail-out occurred, or the exit status is non-zero. Exhaustive to the stated bounds.',
+    'Trusts harness/reftap.py (self-tested on all 47 streams of unittests/taptests.py and 17 spec-style examples); corners the TAP documents leave open are excluded and counted.',
+    'DESIGN.md 3/C18')
+
 NOT_YET = 'no check is registered for this property in this revision (see DESIGN.md section 8 for status)'
 
 
